@@ -92,6 +92,48 @@ int sim_ledger_live_total (void)
     return n;
 }
 
+/* ---- reachability from the library's own static storage --------------------------------------------
+ * A block that is still allocated after eav_free but reachable from a static of the library (a lazily built
+ * index, a one-time table) is process-lifetime state, not something the object failed to release: valgrind
+ * would call it "still reachable".  Only blocks NOT reachable that way count as unreleased.  The library
+ * objects' writable sections are renamed at build time so the linker brackets them. */
+extern char __start_eavdata[] __attribute__((weak)); extern char __stop_eavdata[] __attribute__((weak));
+extern char __start_eavbss[] __attribute__((weak)); extern char __stop_eavbss[] __attribute__((weak));
+
+#define MAXLIVE 1024
+static struct lent *g_lv[MAXLIVE]; static unsigned char g_mark[MAXLIVE]; static int g_nlv;
+
+__attribute__((no_sanitize("address"))) static void scan_words (const char *lo, const char *hi, int *stack, int *sp)
+{
+    lo = (const char *)(((uintptr_t)lo + 7) & ~(uintptr_t)7);
+    for (const char *q = lo; q + sizeof (void *) <= hi; q += sizeof (void *)) {
+        uintptr_t w = *(const uintptr_t *)q;
+        if (w < 4096) continue;
+        for (int i = 0; i < g_nlv; i++) {
+            struct lent *e = g_lv[i];
+            if (!g_mark[i] && w >= (uintptr_t)e->p && w < (uintptr_t)e->p + (e->n ? e->n : 1)) { g_mark[i] = 1; if (*sp < MAXLIVE) stack[(*sp)++] = i; break; }
+        }
+    }
+}
+
+/* number of live blocks with this tag (or any tag if tag == -2) that are NOT reachable from library statics */
+int sim_ledger_unreachable_live (int tag)
+{
+    static int stack[MAXLIVE]; int sp = 0, n = 0, any = 0;
+    g_nlv = 0;
+    for (int i = 0; i < LSIZE; i++) if (ltab[i].state == 1) {
+        if (g_nlv < MAXLIVE) g_lv[g_nlv++] = &ltab[i];
+        if (tag == -2 || ltab[i].tag == tag) any++;
+    }
+    if (!any) return 0;
+    memset (g_mark, 0, sizeof g_mark);
+    if (__start_eavdata) scan_words (__start_eavdata, __stop_eavdata, stack, &sp);
+    if (__start_eavbss) scan_words (__start_eavbss, __stop_eavbss, stack, &sp);
+    while (sp > 0) { struct lent *e = g_lv[stack[--sp]]; scan_words ((const char *)e->p, (const char *)e->p + e->n, stack, &sp); }
+    for (int i = 0; i < g_nlv; i++) if ((tag == -2 || g_lv[i]->tag == tag) && !g_mark[i]) n++;
+    return n;
+}
+
 int sim_ledger_live_for_tag (int tag, void **out, int max)
 {
     int n = 0;
